@@ -134,7 +134,10 @@ def bounded(tier, seed):
                 viol.append({"clause": "rewrite_idempotent", "input": {"text": s}, "got": ellipses(r), "want": r})
     docs = D.documents(seed, 60 if tier == "quick" else 600, hazards=False)
     docs += ["wait... what... `a...b` <span title=\"x...\"> [l...](http://x/...) {% t a=\"...\" %}\n", "```\ncode...\n```\n\ntext...\n",
-             "| a... | b |\n|---|---|\n| ... | c...d |\n", "# Head... ing\n\nend...\n"]
+             "| a... | b |\n|---|---|\n| ... | c...d |\n", "# Head... ing\n\nend...\n",
+             # dot runs inside template tags are template syntax / data
+             'Use {% x "foo...bar" %} and {{ a...b }} and {# wait...so #} here... ok.\n',
+             '- item {% set r = 1...5 %} text...\n\n> {{ items[1...3] }} quoted... end\n', '{% note title="so...then" %}\nbody... text\n{% /note %}\n']
     for d in docs:
         o = dict(width=88, semantic=False)
         off = P.fmt(d, ellipses=False, **o)
@@ -148,6 +151,10 @@ def bounded(tier, seed):
             continue
         if D.literal_spans(off) != D.literal_spans(on):
             viol.append({"clause": "doc_literals_unchanged", "input": {"text": d, "options": o, **P.doc_features(d)}, "got": on[:300]})
+        for tag in re.findall(r"\{%.*?%\}|\{#.*?#\}|\{\{.*?\}\}|<!--.*?-->", d, re.S):
+            if re.sub(r"\s+", " ", tag) not in re.sub(r"\s+", " ", on):
+                viol.append({"clause": "tags_untouched", "input": {"text": d, "options": o, **P.doc_features(d)}, "got": on[:300], "construct": tag})
+                break
         if D.canonical(off.replace("...", "…"))[1:] is None:
             pass
     # document level: with the option on, formatting again changes nothing (prose with dot runs next to soft breaks, many widths)
